@@ -14,7 +14,7 @@ __all__ = ("Codec", "codec")
 T = t.TypeVar("T")
 
 
-@compat.cache
+@refs.cache
 def codec(
     t: type[T],
     *,
